@@ -763,3 +763,173 @@ def _(mod):
     def ed(n):
         return parse_stmt("self.application_traffic.insert(0, (plaintext[:-1], record, isserver))")
     return edit_first(f, pred, ed)
+
+
+# ------------------------------------------------------------------ C15
+@variant("c15-swap-randoms", "break", ["C15"], SES, "B4", "generate_keys", "TLS 1.2 CLIENT_RANDOM arm passes (server_random, client_random)")
+def _(mod):
+    f = get_func(mod, "Session.generate_keys")
+    def pred(n):
+        return isinstance(n, ast.Call) and ast.unparse(n.func) == "key_derivator.dev_tls_12_keys" and ast.unparse(n.args[0]) == "bytes.fromhex(secret.value)"
+    def ed(n):
+        n.args[1], n.args[2] = n.args[2], n.args[1]
+        return n
+    return edit_first(f, pred, ed)
+
+
+@variant("c15-keyblock-overlap", "break", ["C15"], KD, "T7k", "slice:server_write_key", "server_write_key starts at the client key offset")
+def _(mod):
+    f = get_func(mod, "dev_tls_12_keys")
+    d = next(n.value for n in ast.walk(f) if isinstance(n, ast.Assign) and isinstance(n.value, ast.Dict))
+    for k, v in zip(d.keys, d.values):
+        if k.value == "server_write_key":
+            v.slice.lower = parse_expr("mac_length * 2")
+            return True
+
+
+@variant("c15-iv-from-key-info", "break", ["C15"], KD, "T6", "site:server_application_iv", "TLS 1.3 server application IV expanded with the key label")
+def _(mod):
+    f = get_func(mod, "dev_tls_13_keys")
+    def pred(n):
+        return isinstance(n, ast.Assign) and ast.unparse(n.targets[0]) == "server_application_iv"
+    def ed(n):
+        n.value = parse_expr("HKDFExpand(hash_fun, 12, key_info).derive(bytes.fromhex(secret.value))")
+        return n
+    return edit_first(f, pred, ed)
+
+
+@variant("c15-quic-hp-label", "break", ["C15", "C02"], QKG, "T6", "labels", "QUIC v1 header-protection label misspelt")
+def _(mod):
+    f = get_func(mod, "dev_quic_keys")
+    def pred(n):
+        return isinstance(n, ast.Constant) and n.value == b"quic hp"
+    def ed(n):
+        n.value = b"quic kp"
+        return n
+    return edit_first(f, pred, ed)
+
+
+@variant("c15-quic-role-cross", "break", ["C15", "C02"], QKG, "T6", "site:client_handshake_iv", "client handshake IV derived under the server label")
+def _(mod):
+    f = get_func(mod, "dev_quic_keys")
+    # swap the two iv assignment targets between the CLIENT_/SERVER_HANDSHAKE arms
+    a = [n for n in ast.walk(f) if isinstance(n, ast.Assign) and ast.unparse(n.targets[0]) in ("client_handshake_iv", "server_handshake_iv")]
+    if len(a) != 2:
+        return False
+    a[0].targets, a[1].targets = a[1].targets, a[0].targets
+    return True
+
+
+@variant("c15-initial-chacha-again", "break", ["C15", "C02"], QS, "T6", "suite-independent", "Initial keys re-derived with ChaCha20 lengths when 0x1303 is offered")
+def _(mod):
+    f = get_func(mod, "QuicSession.handle_packet")
+    def pred(n):
+        return isinstance(n, ast.If) and "Initial" in ast.unparse(n.test)
+    def ed(n):
+        n.orelse = [ast.If(test=parse_expr("self.tls_session.ciphersuite == b'\\x13\\x03'"), body=[parse_stmt("self.set_initial_decryptor(dcid, True)")], orelse=[])]
+        return n
+    return edit_first(f, pred, ed)
+
+
+@variant("c15-decryptor-list-order", "break", ["C15", "C02"], QS, "T5q", "decryptor-keys:Handshake", "handshake decryptor built with client keys first")
+def _(mod):
+    f = get_func(mod, "QuicSession.set_tls_decryptors")
+    def pred(n):
+        return isinstance(n, ast.List) and len(n.elts) == 4 and "server_handshake_key" in ast.unparse(n)
+    def ed(n):
+        n.elts = n.elts[2:] + n.elts[:2]
+        return n
+    return edit_first(f, pred, ed)
+
+
+@variant("c15-ku-from-old-secret", "break", ["C15", "C02"], QKG, "T6", "key_update", "updated client key derived from the previous secret")
+def _(mod):
+    f = get_func(mod, "key_update")
+    def ed(n):
+        n.value = parse_expr("HKDFExpand(hash_fun, key_length, key_info).derive(client_n)")
+        return n
+    return edit_first(f, is_assign_to("client_application_key"), ed)
+
+
+@variant("c15-aead-flag-slot", "break", ["C15"], SES, "B4", "generate_keys", "TLS 1.0 arm passes CryptoAlgo[1] where Mode[1] belongs... and SSL3 gets Mode[0]")
+def _(mod):
+    f = get_func(mod, "Session.generate_keys")
+    def pred(n):
+        return isinstance(n, ast.Call) and ast.unparse(n.func) == "key_derivator.dev_ssl_30_keys"
+    def ed(n):
+        n.args[-1] = parse_expr("cipher_suite['Mode'][0]")
+        return n
+    return edit_first(f, pred, ed)
+
+
+@variant("c15-preserve-kwargs", "preserve", ["C15"], KD, desc="rename a local in dev_tls_10_11_keys")
+def _(mod):
+    f = get_func(mod, "dev_tls_10_11_keys")
+    return rename_local(f, "logging_string", "msg")
+
+
+# ------------------------------------------------------------------ C17
+@variant("c17-missing-field", "break", ["C17"], QF, "T8", "ResetStreamFrame:layout", "RESET_STREAM without the final size")
+def _(mod):
+    f = get_func(mod, "ResetStreamFrame.__init__")
+    ok = edit_first(f, is_assign_to("self.final_size"), lambda n: None)
+    # remove the last length advance too
+    augs = [n for n in ast.walk(f) if isinstance(n, ast.AugAssign)]
+    last = augs[-1]
+    return edit_first(f, lambda n: n is last, lambda n: None) and ok
+
+
+@variant("c17-fields-swapped", "break", ["C17"], QF, "T8", "MaxStreamDataFrame:layout", "MAX_STREAM_DATA reads the limit before the stream id")
+def _(mod):
+    f = get_func(mod, "MaxStreamDataFrame.__init__")
+    a = [n for n in ast.walk(f) if isinstance(n, ast.Assign) and ast.unparse(n.targets[0]) in ("self.stream_id", "self.maximum_stream_data")]
+    a[0].targets, a[1].targets = a[1].targets, a[0].targets
+    return True
+
+
+@variant("c17-token-size", "break", ["C17", "C02"], QF, "T8", "NewConnectionIdFrame:layout", "stateless reset token taken as 8 bytes")
+def _(mod):
+    f = get_func(mod, "NewConnectionIdFrame.__init__")
+    n = 0
+    for c in ast.walk(f):
+        if isinstance(c, ast.Constant) and c.value == 16:
+            c.value = 8
+            n += 1
+    return n == 2
+
+
+@variant("c17-index-not-advanced", "break", ["C17"], QF, "T8", "CryptoFrame:layout", "CRYPTO length read from the offset position (index not advanced)")
+def _(mod):
+    f = get_func(mod, "CryptoFrame.__init__")
+    return edit_first(f, is_assign_to("index"), lambda n: parse_stmt("index = 1"))
+
+
+@variant("c17-registry-key-lost", "break", ["C17"], QF, "T8", "types:StreamFrame", "STREAM type 0x0f dropped from the registry")
+def _(mod):
+    d = _dict_assign(mod, "frame_type")
+    for k in d.keys:
+        if len(k.elts) == 8:
+            k.elts = k.elts[:7]
+            return True
+
+
+@variant("c17-stream-len-bit", "break", ["C17", "C02"], QF, "T8", "StreamFrame:layout", "STREAM data length ignored: data runs to the end of the packet even with LEN set")
+def _(mod):
+    f = get_func(mod, "StreamFrame.__init__")
+    def pred(n):
+        return isinstance(n, ast.AugAssign) and ast.unparse(n) == "self.length += self.data_length"
+    return edit_first(f, pred, lambda n: parse_stmt("self.length = len(payload)"))
+
+
+@variant("c17-preserve-rename-index", "preserve", ["C17"], QF, desc="rename the cursor snapshot local")
+def _(mod):
+    f = get_func(mod, "AckFrame.__init__")
+    return rename_local(f, "index", "pos")
+
+
+@variant("c17-preserve-temp", "preserve", ["C17"], QF, desc="introduce a temporary for the varint slice end")
+def _(mod):
+    f = get_func(mod, "MaxDataFrame.__init__")
+    def ed(n):
+        return [parse_stmt("end = self.length"), parse_stmt("self.maximum_data = decode_variable_length_int(payload[1:end])")]
+    return edit_first(f, is_assign_to("self.maximum_data"), ed)
